@@ -15,6 +15,7 @@ import BufrModel.Drv.TemplateOp
 import BufrModel.Drv.CacheOp
 import BufrModel.Drv.CompilerOp
 import BufrModel.Drv.TableDefOp
+import BufrModel.Drv.FlatOp
 open Lean Bufr.Drv
 
 /-- stateless operations: one line per op -/
@@ -51,6 +52,7 @@ def statefulOps : List (String × (DrvState → Json → J (DrvState × Json))) 
   ("tabledef-extract", TD.opTableDefExtract) ::
   ("fix-ncep", TD.opFixNcep) ::
   ("build-src", TD.opBuildSrc) ::
+  ("dec-data-flat", opDecDataFlat) ::
   []
 
 def dispatch (st : DrvState) (j : Json) : J (DrvState × Json) := do
